@@ -1292,7 +1292,9 @@ impl<'a> ParseState<'a, &'a str> {
             .copulas()
             .into_iter()
             // 是否有任意一个是「环境切片」的开头
-            .any(|copula| env_slice.starts_with_str(copula))
+            // * 🚩先检验长度：`starts_with_str`在切片比系词短、且恰为其前缀时亦返回`true`，
+            //   会使输入末尾形如「工具」「x现」（漢文）的词项名被误截断于系词的前半截（`具`有、`现`得）
+            .any(|copula| copula.chars().count() <= env_slice.len() && env_slice.starts_with_str(copula))
     }
 
     /// 消耗&置入/词项/原子
